@@ -221,6 +221,8 @@ func (n *Namespace) add(c *serverConn, auth json.RawMessage) (*serverSocket, err
 
 	err = n.runMiddlewares(socket, handshake)
 	if err != nil {
+		// A middleware may have joined the socket to rooms before the rejection.
+		socket.cleanup()
 		return nil, err
 	}
 
